@@ -347,6 +347,23 @@ def Body.cppCall : Body → CppCall
   | .solve k _ (some A) r x _ => ⟨.solve3 k, [A.role, r.role, x.role]⟩
   | .forward _ _ _ => ⟨.other, []⟩
 
+/-- what reaches the C++ library when an entry point is called with `(n, ptr, col, val)` for its matrix
+parameters: the C++ callee with the roles of its arguments, and the rows it reads through the tuple (`none`
+inside `matrix`: the callee takes no matrix; the whole result `none`: a read outside the caller's arrays) -/
+structure Forwarded (K : Type) where
+  call   : CppCall
+  matrix : Option (Array (List (Int × K)))
+
+def Table.forwarded {K : Type} (t : Table) (e : Entry) (n : Nat) (ptr col : Array Int) (val : Array K) :
+    Option (Forwarded K) :=
+  match (t.resolve e).tuple? with
+  | none => some ⟨(t.resolve e).cppCall, none⟩
+  | some A => ((A.view n ptr col val).bind View.toRows).map (fun rows => ⟨(t.resolve e).cppCall, some rows⟩)
+
+/-- the write an API call `name(handle, …)` of the parameter family performs on the tree behind its handle -/
+def Table.pwrite (t : Table) (name : String) (a : SetterArgs ⊕ List (List String × String)) : Option PWrite :=
+  (t.find? name).bind (fun e => e.body.pwrite a)
+
 /-! ## consistency -/
 
 def convFields : List String := ["iterations", "residual"]
